@@ -34,6 +34,94 @@ json.dump(out, sys.stdout)
 '''
 
 
+FORK_SCAN = r'''
+import ast, json, sys, threading
+import psutil
+from psutil import _pslinux
+src = open(_pslinux.__file__.replace(".pyc", ".py")).read()
+tree = ast.parse(src)
+SYNC = ("Lock", "RLock", "Condition", "Semaphore", "BoundedSemaphore", "Event", "Barrier")
+
+def is_sync_call(node):
+    if not isinstance(node, ast.Call):
+        return False
+    f = node.func
+    name = f.attr if isinstance(f, ast.Attribute) else getattr(f, "id", None)
+    return name in SYNC
+
+classes = {n.name: n for n in tree.body if isinstance(n, ast.ClassDef)}
+# module-level singletons: NAME = SomeClassOfThisModule(...)
+singletons = {}
+module_sync = []
+for n in tree.body:
+    if isinstance(n, ast.Assign) and len(n.targets) == 1 and isinstance(n.targets[0], ast.Name):
+        name = n.targets[0].id
+        if is_sync_call(n.value):
+            module_sync.append(name)
+        elif isinstance(n.value, ast.Call) and isinstance(n.value.func, ast.Name) and n.value.func.id in classes:
+            singletons[name] = n.value.func.id
+# which singletons does the net_connections code use?  (module function net_connections and Process.net_connections)
+def names_used(fn):
+    return {x.id for x in ast.walk(fn) if isinstance(x, ast.Name)}
+used = set()
+for n in tree.body:
+    if isinstance(n, ast.FunctionDef) and n.name == "net_connections":
+        used |= names_used(n)
+    if isinstance(n, ast.ClassDef) and n.name == "Process":
+        for m in n.body:
+            if isinstance(m, ast.FunctionDef) and m.name == "net_connections":
+                used |= names_used(m)
+entries, mutable = [], []
+for name, cls in singletons.items():
+    if name not in used:
+        continue
+    for m in ast.walk(classes[cls]):
+        if isinstance(m, ast.Assign):
+            for t in m.targets:
+                if isinstance(t, ast.Attribute) and isinstance(t.value, ast.Name) and t.value.id == "self":
+                    full = "%s.%s" % (name, t.attr)
+                    if is_sync_call(m.value):
+                        if full not in entries:
+                            entries.append(full)
+                    elif full not in mutable:
+                        mutable.append(full)
+# module-level sync objects referenced by the classes of the used singletons or by net_connections itself
+for nm in module_sync:
+    refs = set(used)
+    for name, cls in singletons.items():
+        if name in used:
+            refs |= names_used(classes[cls])
+    if nm in refs:
+        entries.append(nm)
+# what an os.register_at_fork(after_in_child=...) handler re-creates
+reinit = set()
+funcs = {n.name: n for n in tree.body if isinstance(n, ast.FunctionDef)}
+for n in ast.walk(tree):
+    if isinstance(n, ast.Call) and (getattr(n.func, "attr", None) == "register_at_fork" or getattr(n.func, "id", None) == "register_at_fork"):
+        for kw in n.keywords:
+            if kw.arg == "after_in_child":
+                h = kw.value
+                body = funcs.get(h.id) if isinstance(h, ast.Name) else h
+                if body is None:
+                    continue
+                for a in ast.walk(body):
+                    if isinstance(a, ast.Assign):
+                        for t in a.targets:
+                            reinit.add(ast.unparse(t))
+# cross-check with the running objects: every lock-like attribute of the live singletons must have been seen
+lock_types = (type(threading.Lock()), type(threading.RLock()), threading.Condition, threading.Semaphore, threading.Event)
+for name in singletons:
+    if name in used:
+        obj = getattr(_pslinux, name)
+        for k, v in vars(obj).items():
+            if isinstance(v, lock_types) and "%s.%s" % (name, k) not in entries:
+                entries.append("%s.%s" % (name, k))
+out = {"sync": [[e, (e in reinit) or (e.split(".")[0] in reinit)] for e in entries], "mutable": mutable,
+       "singletons": sorted(n for n in singletons if n in used)}
+json.dump(out, sys.stdout)
+'''
+
+
 def _by(s):
     return "[" + ";".join(str(b) for b in s.encode()) + "]"
 
@@ -47,6 +135,11 @@ def dump(impl_dir):
     if r.returncode != 0:
         raise RuntimeError("C11 table dump failed:\n" + r.stderr[-2000:])
     d = json.loads(r.stdout)
+    r2 = subprocess.run([PY, "-c", FORK_SCAN], env=env, stdout=subprocess.PIPE, stderr=subprocess.PIPE, text=True, timeout=120,
+                        cwd=impl_dir)
+    if r2.returncode != 0:
+        raise RuntimeError("C11 fork-state scan failed:\n" + r2.stderr[-2000:])
+    d["fork"] = json.loads(r2.stdout)
     if not os.path.realpath(d["file"]).startswith(os.path.realpath(impl_dir)):
         raise RuntimeError("C11 table dump imported psutil from %s, expected under %s" % (d["file"], impl_dir))
     return d
@@ -83,6 +176,12 @@ def render(d):
     L.append("(* values of the members of socket.SocketKind / socket.AddressFamily: what socktype_to_enum / sockfam_to_enum know *)")
     L.append("Definition gen_socket_kinds : list Z := [%s]." % ";".join(map(str, d["socket_kinds"])))
     L.append("Definition gen_address_families : list Z := [%s]." % ";".join(map(str, d["address_families"])))
+    f = d["fork"]
+    L.append("(* process-wide state used by net_connections() that os.fork() copies into the child (ast of _pslinux.py + the live")
+    L.append("   objects): module-level singletons %s, their plain attributes %s;" % (", ".join(f["singletons"]) or "-", ", ".join(f["mutable"]) or "-"))
+    L.append("   synchronisation objects among them, each with: is it re-created by an os.register_at_fork(after_in_child=...) handler *)")
+    L.append("Definition gen_fork_sync : list (bytes * bool) :=\n  [ " + ";\n    ".join(
+        "(%s, %s) (* %s *)" % (_by(n), "true" if b else "false", n) for n, b in f["sync"]) + " ].")
     L.append("(* psutil._common.CONN_* *)")
     L.append("Definition gen_conn_constants : list bytes :=\n  [ " + ";\n    ".join("%s (* %s *)" % (_by(v), v) for v in d["conn_constants"]) + " ].")
     L.append("")
